@@ -321,6 +321,10 @@ def systematic(rng, bases, quick, rich_rot=0):
             for cls in classes_of(nm, val):
                 good, bad = POOL[cls]
                 cands += [(cls + "-", v) for v in (bad if not (quick and cls == "code") else ["", "A-", "Z" * 33, "A&B", "A  B"])]
+            # look-alikes outside ASCII (upper-case letters / digits of other scripts, 2-3 BYTES long): what a hand-written
+            # unicode.IsUpper / IsDigit / len() test accepts where the published pattern is written over [A-Z0-9] / [a-z0-9]
+            if re.fullmatch(r"[A-Za-z0-9+-]{1,16}", val):
+                cands += [("uni", v) for v in ("\u03a9", "\u00d1A", "\u0661A", "\u00f1", "\u00e91")]
             # length boundaries of codes, keys and free text, whatever the class of the present value
             for v in (("A" * 33, "A" * 64, "A" * 65, "a" * 65, "A" * 256) if quick else
                       ("A" * 32, "A" * 33, "A" * 64, "A" * 65, "a" * 64, "a" * 65, "A" * 255, "A" * 256, "a" * 256)):
